@@ -8,7 +8,8 @@
 #define VERIF_MAXSHIFT 12
 #endif
 uint64_t g_sz[3];                     /* ghost: payload sizes of the blocks of the chain */
-#define VERIF_GHOST_INIT() __CPROVER_havoc_object(g_sz)
+uint8_t g_has1, g_has2;               /* ghost: does the current block have one / two followers */
+#define VERIF_GHOST_INIT() (__CPROVER_havoc_object(g_sz), __CPROVER_havoc_object(&g_has1), __CPROVER_havoc_object(&g_has2))
 
 static inline uint8_t* c_data(MB* b) { return (uint8_t*)b + sizeof(MB); }
 static inline uint8_t* c_end(MB* b) { return c_data(b) + b->size; }
@@ -26,6 +27,7 @@ static inline uint8_t* c_end(MB* b) { return c_data(b) + b->size; }
   __CPROVER_requires(self->_current_block->next == NULL || BLK_FRESH(self->_current_block->next, 1)) \
   __CPROVER_requires(self->_current_block->next == NULL || self->_current_block->next->next == NULL || BLK_FRESH(self->_current_block->next->next, 2)) \
   __CPROVER_requires(self->_current_block->next == NULL || self->_current_block->next->next == NULL || self->_current_block->next->next->next == NULL) \
+  __CPROVER_requires(g_has1 == (self->_current_block->next != NULL) && g_has2 == (self->_current_block->next != NULL && self->_current_block->next->next != NULL)) \
   __CPROVER_requires(self->_end == c_end(self->_current_block) && __CPROVER_same_object(self->_ptr, self->_current_block) && \
      __CPROVER_POINTER_OFFSET(self->_ptr) >= sizeof(MB) && __CPROVER_POINTER_OFFSET(self->_ptr) <= sizeof(MB) + g_sz[0] && (__CPROVER_POINTER_OFFSET(self->_ptr) % 8) == 0) \
   __CPROVER_requires(self->_current_block_size_shift >= 10 && self->_current_block_size_shift <= VERIF_MAXSHIFT && self->_max_block_size_shift == 26 && self->_min_block_size_shift >= 10 && self->_min_block_size_shift <= self->_current_block_size_shift)
@@ -66,4 +68,35 @@ static inline int c_arena_wf(const struct Arena* a) {
   __CPROVER_ensures(__CPROVER_return_value == NULL || self->_current_block != __CPROVER_old(self->_current_block)) \
   /* A4 failure leaves the bump pointer alone */ \
   __CPROVER_ensures(__CPROVER_return_value != NULL || (self->_ptr == __CPROVER_old(self->_ptr) && self->_end == __CPROVER_old(self->_end)))
+#endif
+
+#ifdef HAVE_STRUCT_Arena
+/* ---- Arena::reset (property C16): hard reset returns the arena to its constructed state and frees every block exactly once;
+ *      soft reset rewinds to the first block and keeps the chain. Dynamic block list: empty or one block. ------------------ */
+static inline int c_reset_post(const struct Arena* a, uint32_t policy, MB* first0, uint8_t min_shift0) {
+  for (unsigned i = 0; i < 8; i++) if (a->_reusable_slots[i] != NULL) return 1;       /* no pooled slot survives (they point into rewound memory) */
+  if (a->_dynamic_blocks != NULL || a->_unused_byte_count != 0) return 2;
+  if (policy == 1 /* kHard */) {
+    if (a->_first_block != ZERO_BLOCK || a->_current_block != ZERO_BLOCK) return 3;   /* as constructed: the static zero-sized block */
+    if (a->_current_block_size_shift != min_shift0) return 4;
+  } else {
+    if (a->_first_block != first0 || a->_current_block != first0) return 5;           /* soft: rewound to the first block, chain kept */
+    if (!__CPROVER_same_object(a->_ptr, first0) || __CPROVER_POINTER_OFFSET(a->_ptr) != sizeof(MB)) return 6;
+  }
+  if (a->_end != c_end(a->_current_block)) return 7;
+  return 0;
+}
+#define CONTRACT_Arena_reset \
+  ARENA_CHAIN_PRE(self) \
+  __CPROVER_requires(reset_policy <= 1 && self->_has_static_block == 0) \
+  __CPROVER_requires(self->_dynamic_blocks == NULL || __CPROVER_is_fresh(self->_dynamic_blocks, sizeof(struct Arena_DynamicBlock) + 64)) \
+  __CPROVER_requires(self->_dynamic_blocks == NULL || self->_dynamic_blocks->next == NULL) \
+  __CPROVER_assigns(*self) \
+  __CPROVER_frees(self->_current_block, self->_current_block->next, self->_dynamic_blocks) \
+  __CPROVER_frees(self->_current_block->next != NULL: self->_current_block->next->next) \
+  __CPROVER_ensures(c_reset_post(self, reset_policy, __CPROVER_old(self->_first_block), __CPROVER_old(self->_min_block_size_shift)) == 0) \
+  /* every managed block is released by a hard reset, none by a soft reset; dynamic blocks always */ \
+  __CPROVER_ensures(reset_policy == 1 ==> __CPROVER_was_freed(__CPROVER_old(self->_first_block))) \
+  __CPROVER_ensures((reset_policy == 1 && __CPROVER_old(self->_current_block->next) != NULL) ==> __CPROVER_was_freed(__CPROVER_old(self->_current_block->next))) \
+  __CPROVER_ensures(__CPROVER_old(self->_dynamic_blocks) != NULL ==> __CPROVER_was_freed(__CPROVER_old(self->_dynamic_blocks)))
 #endif
